@@ -3,6 +3,7 @@ package vuego
 import (
 	"io"
 	"io/fs"
+	"strconv"
 	"sync"
 	"time"
 
@@ -88,6 +89,8 @@ func (v *Vue) renderNodesWithContext(ctx VueContext, w io.Writer, nodes []*html.
 	for i := 0; i < len(nodes); i++ {
 		nodeCopy = append(nodeCopy, helpers.DeepCloneNode(nodes[i]))
 	}
+	// nodes that did not come from a parsed file (RenderNodes, string templates) get their ids on the private copy
+	assignOnceIDs(ctx.FromFilename, nodeCopy)
 
 	if err := v.preProcessNodes(ctx, nodeCopy); err != nil {
 		return err
@@ -155,11 +158,6 @@ func (v *Vue) Render(w io.Writer, filename string, data any) error {
 		Processors: v.nodeProcessors,
 	})
 
-	// Assign unique IDs to all v-once elements for tracking across deep clones
-	for _, node := range dom {
-		assignSeenAttrs(&vueCtx, node)
-	}
-
 	// Use renderNodesWithContext with pre-configured context
 	return v.renderNodesWithContext(vueCtx, w, dom)
 }
@@ -197,6 +195,7 @@ func (v *Vue) loadCachedWithFrontMatter(filename string) (map[string]any, []*htm
 	if err != nil {
 		return nil, nil, err
 	}
+	assignOnceIDs(filename, dom)
 
 	v.templateMu.Lock()
 	v.templateCache[filename] = &templateCacheEntry{
@@ -209,16 +208,26 @@ func (v *Vue) loadCachedWithFrontMatter(filename string) (map[string]any, []*htm
 	return frontMatter, dom, nil
 }
 
-// assignSeenAttrs recursively assigns unique IDs to all v-once elements in the tree
-func assignSeenAttrs(ctx *VueContext, node *html.Node) {
-	if node.Type == html.ElementNode {
-		if helpers.HasAttr(node, "v-once") {
-			id := ctx.nextSeenID()
-			helpers.SetAttr(node, "v-once-id", id)
+// assignOnceIDs gives every v-once element of a freshly parsed template an id made of the
+// template name and the element's position, so that the same element has the same id in every
+// render and every inclusion of the template. It is called once per parse, before the DOM is
+// shared; elements that already carry an id keep it.
+func assignOnceIDs(name string, nodes []*html.Node) {
+	next := 0
+	var walk func(node *html.Node)
+	walk = func(node *html.Node) {
+		if node.Type == html.ElementNode && helpers.HasAttr(node, "v-once") {
+			next++
+			if helpers.GetAttr(node, "v-once-id") == "" {
+				helpers.SetAttr(node, "v-once-id", name+"#"+strconv.Itoa(next))
+			}
+		}
+		for c := node.FirstChild; c != nil; c = c.NextSibling {
+			walk(c)
 		}
 	}
-	for c := node.FirstChild; c != nil; c = c.NextSibling {
-		assignSeenAttrs(ctx, c)
+	for _, node := range nodes {
+		walk(node)
 	}
 }
 
@@ -235,6 +244,7 @@ func (v *Vue) RenderFragment(w io.Writer, filename string, data any) error {
 	if err != nil {
 		return err
 	}
+	assignOnceIDs(filename, dom)
 
 	// Merge front-matter data over a copy of the provided data (front-matter is authoritative)
 	dataMap := mergeFrontMatter(toMapData(data), frontMatter)
@@ -244,11 +254,6 @@ func (v *Vue) RenderFragment(w io.Writer, filename string, data any) error {
 		Stack:      NewStackWithData(dataMap, data),
 		Processors: v.nodeProcessors,
 	})
-
-	// Assign unique IDs to all v-once elements for tracking across deep clones
-	for _, node := range dom {
-		assignSeenAttrs(&vueCtx, node)
-	}
 
 	// Use RenderNodes with pre-configured context
 	return v.renderNodesWithContext(vueCtx, w, dom)
